@@ -369,6 +369,45 @@ def stepAdapter (op : String) (args : List String) : Option String :=
     let incs := if s.incs.isEmpty then "." else "/".intercalate (s.incs.map fun i =>
       if i.sent = 0 then (if i.chanClosed then "closed-empty" else "-") else "&".intercalate (List.replicate i.sent "nil"))
     pure (";".intercalate outs ++ "|open=" ++ (if s.isOpen then "true" else "false") ++ " inc=" ++ incs)
+  | "adm", [h] => do
+    -- several transports, each with its own monitor (product of independent instances)
+    let bs ← unhex h
+    if bs.length > 64 then none else
+    let byteAt (j : Nat) : Nat := (bs.getD j 0).toNat
+    let n := 2 + byteAt 0 % 2
+    let polOf (mx ini mw : Nat) : Monitor.Base := ⟨mx, (ini : Int) * 1000000, ((ini + mw : Nat) : Int) * 1000000⟩
+    let insts : List Monitor.Inst := (List.range n).map fun t =>
+      let c1 := byteAt (1 + 2 * t); let c2 := byteAt (2 + 2 * t)
+      { pol := polOf ((c1 / 2) % 5) (c2 % 3) ((c2 / 3) % 4), alive := true }
+    let toks (tr : List Monitor.MEv) : String := ",".intercalate (tr.filterMap fun e => match e with
+      | .closedUncleanly r w => some ("U>" ++ Adp.b2s r ++ ":" ++ Adp.msOf w)
+      | .reopenFailed k pw r w => some ("F" ++ toString k ++ ":" ++ Adp.msOf pw ++ ">" ++ Adp.b2s r ++ ":" ++ Adp.msOf w)
+      | .reopenSucceeded => some "S"
+      | _ => none)
+    let rec go (fuel : Nat) (j : Nat) (ms : List Monitor.Inst) (acc : List String) (cnt : Nat) : List Monitor.Inst × List String :=
+      match fuel with
+      | 0 => (ms, acc)
+      | fuel + 1 =>
+        if j ≥ bs.length || cnt ≥ 24 then (ms, acc) else
+        let e := byteAt j
+        let t := e % n
+        let op := (e / n) % 8
+        match ms[t]? with
+        | none => (ms, acc)
+        | some m =>
+          if op = 6 then
+            let nb := byteAt (j + 1)
+            let r := Monitor.multiStep ms (.setPolicy t (polOf ((nb / 2) % 5) (nb % 3) ((nb / 16) % 4)))
+            go fuel (j + 2) r.1 (acc ++ ["P" ++ toString t]) (cnt + 1)
+          else
+            let k := if op = 7 then m.pol.maxReopenAttempts else op
+            if !m.alive then go fuel (j + 1) ms (acc ++ ["T" ++ toString t ++ ":term"]) (cnt + 1) else
+            let r := Monitor.multiStep ms (.outage t k)
+            let tr := match r.2 with | some x => x.2 | none => []
+            go fuel (j + 1) r.1 (acc ++ ["T" ++ toString t ++ ":" ++ toks tr]) (cnt + 1)
+    let (ms, outs) := go 64 (1 + 2 * n) insts [] 0
+    let alive := String.mk (ms.map fun m => if m.alive then '1' else '0')
+    pure (";".intercalate outs ++ "|alive=" ++ alive)
   | "cut", [x, k, mode] => do
     -- inbound stream x cut after k bytes, then EOF (e) or a read error (r)
     let bs ← unhex x
